@@ -89,6 +89,50 @@ func TestC20_P_FileOrder(t *testing.T) {
 				t.Fatalf("C20 [%s] %s: run %d order differs from run 0", fc.Desc, opName, rep)
 			}
 		}
+		// Used reader: read a few bytes, seek back to 0, then read sequentially. Whatever is newly requested after the seek
+		// must come in depth-first link order (a reader may keep what it already loaded, it may not reorder the rest).
+		if len(fc.Data) > 0 && rapid.Bool().Draw(t, "usedReader") {
+			k := rapid.IntRange(1, len(fc.Data)).Draw(t, "prefix")
+			pn, err := loadPlain(ls, fc.Root)
+			if err != nil {
+				t.Fatal(err)
+			}
+			rn, err := ls.KnownReifiers["unixfs"](lc0, pn, ls)
+			if err != nil {
+				t.Fatal(err)
+			}
+			rs, err := rn.(datamodel.LargeBytesNode).AsLargeBytes()
+			if err != nil {
+				t.Fatal(err)
+			}
+			fc.St.ResetLogs()
+			if _, err := io.ReadFull(rs, make([]byte, k)); err != nil {
+				t.Fatalf("C20 [%s] prefix read: %v", fc.Desc, err)
+			}
+			before := cidSet(fc.St.ReadLog())
+			fc.St.ResetLogs()
+			if _, err := rs.Seek(0, io.SeekStart); err != nil {
+				t.Fatal(err)
+			}
+			if _, err := io.Copy(io.Discard, plainReader{rs}); err != nil {
+				t.Fatalf("C20 [%s] read after seek: %v", fc.Desc, err)
+			}
+			var wantNew, gotNew []cid.Cid
+			for _, c := range want {
+				if !before[c] {
+					wantNew = append(wantNew, c)
+				}
+			}
+			for _, c := range firstOccurrences(fc.St.ReadLog()) {
+				if !before[c] {
+					gotNew = append(gotNew, c)
+				}
+			}
+			if fmt.Sprint(gotNew) != fmt.Sprint(wantNew) {
+				t.Fatalf("C20 [%s] Read(%d), Seek(0), sequential read on one reader: blocks first requested after the seek %v, depth-first link order of the blocks not loaded before is %v", fc.Desc, k, shortCids(gotNew), shortCids(wantNew))
+			}
+			ev.Count("used-reader", 1)
+		}
 		ev.Case(fmt.Sprintf("%s d=%d l=%s %s", fc.Writer, fc.Tree.Depth(), bucket(fc.Tree.Leaves()), opName), fc.Tree.Depth() >= 3,
 			"op:"+opName, "writer:"+fc.Writer, fmt.Sprintf("depth:%d", fc.Tree.Depth()))
 		ev.Sample(map[string]any{"file": fc.Desc, "op": opName, "blocks": len(want) + 1})
@@ -154,6 +198,67 @@ func TestC20_P_HamtOrder(t *testing.T) {
 				}
 			}
 			return nil
+		}
+		// Partially warmed node: a few lookups first (they load the shards on their hash paths), then the operation on the SAME
+		// node. Blocks that are requested by the operation must still come in depth-first link order.
+		if opName != "unixfs-preload" && opName != "entity-selector" && len(names) > 0 && rapid.Bool().Draw(t, "warmup") {
+			var warm []string
+			for i := rapid.IntRange(1, 4).Draw(t, "nwarm"); i > 0; i-- {
+				warm = append(warm, names[rapid.IntRange(0, len(names)-1).Draw(t, "warmname")])
+			}
+			pn, err := loadPlain(ls, root)
+			if err != nil {
+				t.Fatal(err)
+			}
+			rn, err := ls.KnownReifiers["unixfs"](lc0, pn, ls)
+			if err != nil {
+				t.Fatal(err)
+			}
+			st.ResetLogs()
+			for _, w := range warm {
+				if _, err := rn.LookupByString(w); err != nil {
+					t.Fatalf("C20 hamt warm-up lookup %q: %v", w, err)
+				}
+			}
+			before := cidSet(st.ReadLog())
+			st.ResetLogs()
+			must(t, opName+" after warm-up", func() {
+				switch opName {
+				case "MapIterator":
+					for it := rn.MapIterator(); !it.Done(); {
+						if _, _, e := it.Next(); e != nil {
+							err = e
+							return
+						}
+					}
+				case "Iterator":
+					for it := rn.(nativeDir).Iterator(); !it.Done(); {
+						it.Next()
+					}
+				case "Length":
+					if rn.Length() != int64(len(names)) {
+						err = fmt.Errorf("Length %d want %d", rn.Length(), len(names))
+					}
+				}
+			})
+			if err != nil {
+				t.Fatalf("C20 hamt %s after warm-up: %v", opName, err)
+			}
+			var wantNew, gotNew []cid.Cid
+			for _, c := range want {
+				if !before[c] {
+					wantNew = append(wantNew, c)
+				}
+			}
+			for _, c := range firstOccurrences(st.ReadLog()) {
+				if !before[c] {
+					gotNew = append(gotNew, c)
+				}
+			}
+			if fmt.Sprint(gotNew) != fmt.Sprint(wantNew) {
+				t.Fatalf("C20 hamt fanout=%d n=%d %s after lookups of %q on the same node: newly requested blocks %v, depth-first link order of the not yet loaded shards is %v", fanout, len(names), opName, warm, shortCids(gotNew), shortCids(wantNew))
+			}
+			ev.Count("warm-node", 1)
 		}
 		var first []cid.Cid
 		for rep := 0; rep < 3; rep++ {
@@ -270,7 +375,7 @@ func TestC20_P_PathOrder(t *testing.T) {
 func TestC20_P_HandmadeFileOrder(t *testing.T) {
 	ev := newEvid(t, "case = hand-assembled well-formed file DAG whose chunks may be empty (see C06), full sequential read / preload / entity walk on a fresh node, twice; oracle = independent pre-order walk; non-trivial = DAG with an empty chunk; distinct by (chunk pattern, leaf kind, levels, op)")
 	rapid.Check(t, func(t *rapid.T) {
-		fc := genHandFileDAG(t)
+		fc := genHandFileDAG(t, false)
 		opName := rapid.SampledFrom([]string{"AsBytes", "unixfs-preload"}).Draw(t, "op")
 		ls := fc.St.LinkSystem()
 		op := func(pn datamodel.Node) error {
